@@ -127,7 +127,7 @@ def match_known(known, prop, case, msg):
 
 def run_check(prop, cases, tier, seed, level='model_checking', functions=(), bounds=None, assumptions=(),
               trusted=(), explanation='', setup=None, timeout_ms=None, procs=None, extra_cov=None, tags=driver.HARNESS_TAG,
-              pre_results=None, replay_flags='', post_results=None, evidence_name=None, ssa_name='ssa', cgo=True):
+              pre_results=None, replay_flags='', post_results=None, evidence_name=None, ssa_name='ssa', cgo=True, replay_env=''):
     """returns exit code. `cases` is a list of Case."""
     t0 = time.time()
     timeout_ms = timeout_ms or (60000 if tier == 'quick' else 600000)
@@ -177,7 +177,7 @@ def run_check(prop, cases, tier, seed, level='model_checking', functions=(), bou
                 unreplayed += 1
                 continue
             d = driver.write_replay(prop, re.sub(r'[^A-Za-z0-9_.-]', '_', res['case'] + '_' + hashlib.md5(msg.encode()).hexdigest()[:6]),
-                                    res['pkg'], _replay_fn(res), v['tape'], note='%s %s: %s' % (prop, res['case'], msg), go_flags=replay_flags, tags=tags)
+                                    res['pkg'], _replay_fn(res), v['tape'], note='%s %s: %s' % (prop, res['case'], msg), go_flags=replay_flags, tags=tags, env=replay_env)
             rep, out = driver.run_replay(d)
             replays += 1
             open(os.path.join(d, 'replay.log'), 'w').write(out if isinstance(out, str) else str(out))
@@ -204,7 +204,7 @@ def run_check(prop, cases, tier, seed, level='model_checking', functions=(), bou
     wit_ok = 0
     for res in wit[:N_WITNESS]:
         d = driver.write_replay(prop, 'witness_' + re.sub(r'[^A-Za-z0-9_.-]', '_', res['case']), res['pkg'], _replay_fn(res), res['witness']['tape'],
-                                note='%s reachability witness of case %s' % (prop, res['case']), go_flags=replay_flags, tags=tags)
+                                note='%s reachability witness of case %s' % (prop, res['case']), go_flags=replay_flags, tags=tags, env=replay_env)
         rep, out = driver.run_replay(d)
         replays += 1
         open(os.path.join(d, 'replay.log'), 'w').write(out if isinstance(out, str) else str(out))
